@@ -25,7 +25,7 @@ func init() {
 		semver.Sort(l)
 		return hxList(l)
 	}
-	impls["module.canonicalversion"] = func(a []string) string { return hx(module.CanonicalVersion(unhx(a[0]))) }
+	impls["semver.canonicalversion"] = func(a []string) string { return hx(module.CanonicalVersion(unhx(a[0]))) }
 	register(&Prop{ID: "C04", Gen: genC04, Oracle: oracleC04,
 		Rule: "grammar-directed versions (numeric fields 1-40 digits, 0-4 prerelease identifiers of 4 kinds, build parts), near-misses by one mutation, pairs with long common prefixes, random bytes; non-trivial = valid or one mutation from valid; distinct by op line"})
 }
@@ -177,7 +177,7 @@ func genC04(g *Gen, n int) {
 		case 5:
 			g.Emit("semver.build "+hx(v), nt, "single")
 		case 6:
-			g.Emit("module.canonicalversion "+hx(v), nt, "single")
+			g.Emit("semver.canonicalversion "+hx(v), nt, "single")
 		case 7, 8, 9:
 			var w string
 			if g.Chance(60) {
